@@ -67,6 +67,16 @@ THInit == /\ Tr[l].e \in {"HInit", "HReinit"}
              /\ hs' = [hs EXCEPT ![e.obj] = WithMsg(HInit, <<>>)]
           /\ UNCHANGED <<ms, ks, D, kc>>
 
+\* the caller relocates a state object (a plain struct: memcpy) and continues with the copy; the old storage is reused
+THMove == /\ Tr[l].e = "HMove"
+          /\ LET e == Tr[l] IN
+             /\ Judge(e.canary = 1, l, e, "state object canary")
+             /\ hs' = IF e.to = e.obj THEN hs ELSE [hs EXCEPT ![e.to] = hs[e.obj], ![e.obj] = Garbage]
+          /\ UNCHANGED <<ms, ks, D, kc>>
+
+\* every argument expression of an API call is evaluated exactly once (events of object calls carry the count)
+EvalsOK == LET e == Tr[l] IN ("evals" \in DOMAIN e) => Judge(e.evals = 1, l, e, "the object argument of the call was evaluated more than once")
+
 THUpdate == /\ Tr[l].e = "HUpdate"
             /\ LET e == Tr[l]
                    h == hs[e.obj]
@@ -269,7 +279,7 @@ TPbBlock == /\ Tr[l].e = "PbBlock"
 \* events of the other families (system-level traces): stuttering steps for this specification
 Own == {"Reset", "Garbage", "Hash", "HInit", "HReinit", "HUpdate", "HFinal", "HFree", "Hmac", "HmInit", "HmReinit", "HmUpdate",
         "HmFinal", "HmFree", "Hkdf", "HkdfHead", "PbHead", "HkdfBlock", "HkExtract", "HkExpand", "HkExpandCtl", "HkFree",
-        "Pbkdf2", "PbBlock", "PbLink", "PbXor", "HashHuge", "KdfLearn", "KdfPrefix", "KdfExtract", "KdfExpand"}
+        "Pbkdf2", "PbBlock", "PbLink", "PbXor", "HashHuge", "KdfLearn", "KdfPrefix", "KdfExtract", "KdfExpand", "HMove"}
 TForeign == Tr[l].e \notin Own \cup {"Fault", "San", "Hang", "Garbled"} /\ UNCHANGED <<hs, ms, ks, D, kc>>
 
 (***************************************************************************)
@@ -315,9 +325,10 @@ Init == /\ l = 1 /\ InitRegs
 
 Next == /\ l <= Len(Tr)
         /\ l' = l + 1
+        /\ EvalsOK
         /\ \/ TReset \/ TGarbage \/ THash \/ THInit \/ THUpdate \/ THFinal \/ THFree
            \/ THmac \/ THmInit \/ THmUpdate \/ THmFinal \/ THmFree
-           \/ TForeign \/ TKdfLearn \/ TKdfPrefix \/ TKdfExtract \/ TKdfExpand \/ THashHuge \/ TPbLink \/ TPbXor \/ THkdf \/ THkdfHead \/ TPbHead \/ THkdfBlock \/ THkExtract \/ THkExpand \/ THkExpandCtl \/ THkFree \/ TPbkdf2 \/ TPbBlock
+           \/ TForeign \/ THMove \/ TKdfLearn \/ TKdfPrefix \/ TKdfExtract \/ TKdfExpand \/ THashHuge \/ TPbLink \/ TPbXor \/ THkdf \/ THkdfHead \/ TPbHead \/ THkdfBlock \/ THkExtract \/ THkExpand \/ THkExpandCtl \/ THkFree \/ TPbkdf2 \/ TPbBlock
 
 Spec == Init /\ [][Next]_vars
 TraceAccepted == Accepted(Len(Tr))
